@@ -139,22 +139,8 @@ theorem allocate_hangs_on_last_free (w : Width) (cfg : Option Nat) (rnd : Nat) (
     `parse_lct_header` reads back exactly the TOI. -/
 theorem wire_exact (toi tsi : Nat) (h : toi < 2 ^ 112) :
     ToiWire.decode (ToiWire.encode toi tsi) = toi ∧
-      (ToiWire.encode toi tsi).bytes.length = 4 * (ToiWire.encode toi tsi).o + 2 * (ToiWire.encode toi tsi).h := by
-  obtain ⟨n, hn, hmem, hlt⟩ := ToiWire.nbBytes128_spec toi h
-  have hh := ToiWire.hTsi_le tsi
-  have hL : n ≤ n / 4 % 4 * 4 + max (ToiWire.hTsi tsi) (n / 2 % 2) * 2 ∧
-      n / 4 % 4 * 4 + max (ToiWire.hTsi tsi) (n / 2 % 2) * 2 ≤ 16 := by
-    simp only [List.mem_cons, List.not_mem_nil, or_false] at hmem
-    rcases hmem with rfl | rfl | rfl | rfl | rfl | rfl | rfl <;> omega
-  have key := ToiWire.roundtrip_len (o := n / 4 % 4) (hh := max (ToiWire.hTsi tsi) (n / 2 % 2)) toi
-    (n / 4 % 4 * 4 + max (ToiWire.hTsi tsi) (n / 2 % 2) * 2) hL.2
-    (Nat.lt_of_lt_of_le hlt (Nat.pow_le_pow_right (by decide) hL.1))
-  unfold ToiWire.encode
-  simp only [hn]
-  refine ⟨key.1, ?_⟩
-  rw [key.2]
-  omega
-
+      (ToiWire.encode toi tsi).bytes.length = 4 * (ToiWire.encode toi tsi).o + 2 * (ToiWire.encode toi tsi).h :=
+  ToiWire.roundtrip_full toi tsi h
 
 /-- **wire_exact** (allocated TOIs) - every live TOI of every reachable state, whatever the width
     and the start value, is read back from the LCT header exactly (it is `< 2^w ≤ 2^112`). -/
